@@ -23,7 +23,8 @@ class UseSetLiteral(SimpleCodemod, NameResolutionMixin):
             case cst.Name("set"):
                 if self.is_builtin_function(original_node):
                     match original_node.args:
-                        case [cst.Arg(value=cst.List(elements=elements))]:
+                        # `set(*[...])` passes the elements, not the list
+                        case [cst.Arg(value=cst.List(elements=elements), star="")]:
                             self.report_change(original_node)
 
                             # Can't use set literal for empty set
